@@ -19,7 +19,8 @@ def run(chk):
                 "(2) 2..32 threads issue rotated query streams against one world (no random models): every answer must be "
                 "bit-identical to the sequential one; (3) gwb-grid on small grids with prime node counts for -j 1..N: byte-"
                 "identical VTU files. non-trivial = n not divisible by P, P > n, or a multi-threaded run")
-    chk.assumptions = ["absence of data races in the C++ memory model is not a theorem: the multi-threaded runs are a search "
+    chk.assumptions = ["thorough tier: the concurrent part is repeated under ThreadSanitizer (a separate -fsanitize=thread build of the working tree)",
+                       "absence of data races in the C++ memory model is not a theorem: the multi-threaded runs are a search "
                        "(TSan build in the thorough tier)"]
     chk.prove()
     common.build_repo()
@@ -86,6 +87,16 @@ def run(chk):
                "let () = out_str \"skip\"", {"kind": "mt", "threads": T, "world": wj, "props": ps})
     impl2, _ = cs.run(model=False)
     chk.evaluations += len(impl2)
+    if not quick:
+        # the same concurrent queries under ThreadSanitizer: a reported data race is a violation even when the answers agree
+        common.build_repo_san("tsan")
+        _, _, errs = common.run_probe_resilient([], cs.probe, exe="wbprobe_tsan", timeout=3600)
+        chk.evaluations += len(cs.probe)
+        rep = errs.get("_stderr", "")
+        chk.counters["ThreadSanitizer reports"] = rep.count("WARNING: ThreadSanitizer")
+        if "WARNING: ThreadSanitizer: data race" in rep:
+            k = rep.index("WARNING: ThreadSanitizer: data race")
+            viol.append(("ThreadSanitizer reports a data race during concurrent queries", {"report": rep[k:k + 3000], "probe_lines": len(cs.probe)}))
     for i, a in enumerate(impl2):
         if cs.meta[i].get("kind") == "mt":
             chk.nontriv(("mt", i))
